@@ -4,6 +4,8 @@ package main
 var specs = map[string]*checkSpec{
 	"C01": {id: "C01", level: "model_checking",
 		rule: "BFS over histories of level/registry operations (SetLevel on any logger, package SetLevel, RegisterLevel), de-duplicated on the dump of all gating-relevant globals; in every reached state the full matrix logger level x severity x public entry point (x format) is probed against the reference admission rule; distinct = distinct (logger level, severity, debug mode, wrote) outcomes"},
+	"C02": {id: "C02", level: "model_checking",
+		rule: "full product per layer: (A) every argument list of length <=2 (quick) / <=3 (thorough) over 24 argument tokens x 19 entry points x 3 formats, (B) 15 messages x entry points x formats x 5 logger levels x 3 destination sets, (C) 8 flag subsets x formats x tokens x destination sets x 4 entry points; each call is issued on the real logger with recording writers and compared with the delivery reference (admission, selection, one Write, newline-terminated, identical bytes, equal to a single-destination run, blank Print = one newline); every enumerated input is distinct; distinct_outcomes = distinct payloads"},
 	"C03": {id: "C03", level: "model_checking",
 		rule: "BFS over histories of the 41 writer-configuration operations (methods; first step also as New(...) options) from 3 roots, de-duplicated on the logger's writer lists by identity; every transition is compared with the reference semantics of the operation, every reached state is probed with one record per severity class (9) and the per-writer deliveries (3 pool writers, parent writer, stdout, stderr) compared with the reference selection; distinct = distinct configurations reached"},
 	"C04": {id: "C04", level: "model_checking",
@@ -12,6 +14,8 @@ var specs = map[string]*checkSpec{
 		rule: "the C04 layered product with legal logfmt keys, emitted by the real logger in logfmt mode in a production-mode process and parsed by the independent tokenizer (+ strconv.Unquote); every enumerated input is distinct; distinct_outcomes = distinct payloads"},
 	"C06": {id: "C06", level: "model_checking", testMode: true,
 		rule: "full product per layer: (A) 15 severities x level-tag widths 1..5 x minimal widths {16,36,60} x 28 messages, (B) messages x 20 attribute lists x caller x named, (C) every value representative x 5 severities, (D) the C04 generic layers; each record is emitted by the real logger in colored mode, its raw payload run through the SGR terminal-state simulator (hygiene) and its escape-stripped text through the layout parser; every enumerated input is distinct; distinct_outcomes = distinct payloads"},
+	"C07": {id: "C07", level: "model_checking",
+		rule: "product of logger chains (depth 1..3 quick / 1..4 thorough, 5 own-attribute lists per level incl. empty, duplicate keys and an unsorted group with duplicate members) x call-site lists (sizes 0,1,2,3,12,13,14 (+64) under 8 collision patterns) x 5 context-key sets (string / Stringer / other-typed / absent keys, nil context) x inherit flag x 3 formats; every record is decoded (JSON order-preserving decode, logfmt tokenizer, colored token split) and compared, keys values and order, with the reference merge; distinct_outcomes = distinct reference results"},
 	"C19": {id: "C19", level: "model_checking",
 		rule: "BFS over histories of the ~57-op buffer alphabet from 5 roots, PrintCtx and bytes.Buffer driven in lock-step; a state is the implementation's full internal tuple (content, off, len, cap, lastRead); distinct = distinct canonical states reached"},
 }
